@@ -584,13 +584,8 @@ def _same_function(shapes_a, shapes_b):
     if not shapes_a or len(shapes_a) != len(shapes_b):
         return False
     for seed in range(6):
-        env0 = {}
-        va, vb = [], []
-        for sh in shapes_a:
-            env = {k: v + seed * (7 + 2 * i) for i, (k, v) in enumerate(sorted(env0.items()))}
-            va.append(_eval_shape(sh, env0 if seed == 0 else _seeded(env0, seed)))
-        for sh in shapes_b:
-            vb.append(_eval_shape(sh, env0 if seed == 0 else _seeded(env0, seed)))
+        va = [_eval_shape(sh, _seeded({}, seed)) for sh in shapes_a]
+        vb = [_eval_shape(sh, _seeded({}, seed)) for sh in shapes_b]
         if None in va or None in vb or sorted(va) != sorted(vb):
             return False
     return True
@@ -616,6 +611,7 @@ def rule_response_interval_agreement(ctx, cfg='prod-all'):
     assignments of the parameters."""
     prog, za = ctx.prog(cfg), ctx.zone(cfg)
     sides = {}
+    unknown = set()
     for role, fn in (('prover', RP + 'proof_large_interval_specific'), ('verifier', RP + 'verify_large_interval_specific')):
         b = prog.bodies.get(fn)
         if b is None:
@@ -636,18 +632,21 @@ def rule_response_interval_agreement(ctx, cfg='prod-all'):
                     nm = (b.local_name(r0) or '') + ''.join('.' + x for x in p0)
                 names.append(nm)
             for k in (0, 1):
-                if names[k] and names[k].split('.')[-1] == 'D_1' and shapes[1 - k] is not None:
+                if names[k] and names[k].split('.')[-1] == 'D_1':
                     side = 'upper' if (cal.endswith(('::le', '::lt')) == (k == 0)) else 'lower'
-                    bounds.add((side, shapes[1 - k]))
+                    if shapes[1 - k] is None or _eval_shape(shapes[1 - k], _seeded({}, 1)) is None:
+                        unknown.add(side)          # an expression the rule cannot follow: that side is not judged
+                    else:
+                        bounds.add((side, shapes[1 - k]))
         sides[role] = bounds
     up = {r: sorted(str(x[1]) for x in sides[r] if x[0] == 'upper') for r in sides}
     lo = {r: sorted(str(x[1]) for x in sides[r] if x[0] == 'lower') for r in sides}
     ups = {r: [x[1] for x in sorted(sides[r], key=str) if x[0] == 'upper'] for r in sides}
     los = {r: [x[1] for x in sorted(sides[r], key=str) if x[0] == 'lower'] for r in sides}
-    yield Ob('RF-O', RP + 'proof_large_interval_specific#D_1-upper-bound', _same_function(ups['prover'], ups['verifier']),
+    yield Ob('RF-O', RP + 'proof_large_interval_specific#D_1-upper-bound', None if 'upper' in unknown else _same_function(ups['prover'], ups['verifier']),
              'the prover keeps a response D_1 only below the bound the verifier accepts (same expression on both sides)', prog.bodies[RP + 'proof_large_interval_specific'].span,
              fact=up, expected='the same function of the parameters')
-    yield Ob('RF-O', RP + 'proof_large_interval_specific#D_1-lower-bound', _same_function(los['prover'], los['verifier']),
+    yield Ob('RF-O', RP + 'proof_large_interval_specific#D_1-lower-bound', None if 'lower' in unknown else _same_function(los['prover'], los['verifier']),
              'the prover keeps a response D_1 only above the bound the verifier accepts (same expression on both sides)', prog.bodies[RP + 'proof_large_interval_specific'].span,
              fact=lo, expected='the same function of the parameters')
 
